@@ -46,7 +46,7 @@ mod __verif_c04 {
     fn m_from_std<E>(e: E, _bt: Option<std::backtrace::Backtrace>) -> anyhow::Error where E: std::error::Error + Send + Sync + 'static { std::mem::forget(e); unsafe { std::mem::transmute::<usize, anyhow::Error>(0x2000) } }
 
     #[kani::proof]
-    #[kani::unwind(6)]
+    #[kani::unwind(10)]
     #[kani::stub(parking_lot::RawMutex::unlock_slow, m_unlock_slow)]
     #[kani::stub(parking_lot::RawMutex::lock_slow, m_lock_slow)]
     #[kani::stub(std::io::BufWriter::flush_buf, m_flush_buf)]
@@ -65,12 +65,17 @@ mod __verif_c04 {
         kani::cover!(ef, "encoder fails");
         kani::cover!(big && !ef, "record that fills the buffer exactly");
         kani::cover!(contended, "mutex held by someone else at the time of the call");
-        assert!(n >= 1 && t[0] == 2 && l[0], "append#post the record is encoded first, with the mutex held");
+        // count events (a correct variant may flush more than once; it must not encode twice or flush before encoding)
+        let mut encodes = 0; let mut flushes_after = 0; let mut flushes_before = 0; let mut unlocked = 0;
+        let mut i = 0;
+        while i < 6 { if i < n { if t[i] == 2 { encodes += 1; } if t[i] == 4 { if encodes > 0 { flushes_after += 1; } else { flushes_before += 1; } } if !l[i] { unlocked += 1; } } i += 1; }
+        assert!(n <= 6 && unlocked == 0, "append#post encoding and flushing happen while the mutex is held");
+        assert!(encodes == 1 && n >= 1 && t[0] == 2, "append#post the record is encoded exactly once, first");
         if ef {
-            assert!(n == 1, "append#post an encoder error stops the call: nothing is flushed");
+            assert!(flushes_after == 0, "append#post an encoder error stops the call: nothing is flushed");
             assert!(r.is_err(), "append#post an encoder error is returned");
         } else {
-            assert!(n == 2 && t[1] == 4 && l[1], "append#post exactly one flush follows the encoding, still under the same guard");
+            assert!(flushes_after >= 1 && t[n - 1] == 4, "append#post the encoded record is flushed before the call returns");
             assert!(r.is_ok() == !ff, "append#post Ok exactly when the flush succeeded (an acknowledged record has been flushed)");
         }
         assert!(!app.file.is_locked(), "append#post the mutex is released when the call returns");
